@@ -159,8 +159,8 @@ def run_case(sh, s, d, case):
 
 
 def crafted_implicit_new_conflict(sh, d, case):
-    """deterministic witness of the known finding: an implicitly new object found while serialising a referrer
-    whose store then raises ConflictError keeps _p_oid/_p_jar after the abort"""
+    """deterministic regression scenario (known finding until fix cd1a7ad): an implicitly new object found while serialising a
+    referrer whose store then raises ConflictError must be disowned by the abort, and a retry with the same object must store it"""
     import ZODB
     import ZODB.MappingStorage
     import transaction
@@ -189,7 +189,21 @@ def crafted_implicit_new_conflict(sh, d, case):
     if n._p_oid is not None or n._p_jar is not None:
         sh.violation('c11:%s:implicitly-new-object-keeps-oid-and-jar-after-store-phase-failure' % kind,
                      {'crafted': True, 'oid': n._p_oid, 'jar': n._p_jar is not None}, case)
+    # the usual retry loop: the same new object is linked again and committed; everybody must be able to load it
+    tm1.begin()
+    a1 = c1.root()['a']
+    a1.payload = 'mine again'
+    a1.refs = {'n': n}
+    tm1.commit()
+    tm2.begin()
+    try:
+        got = c2.root()['a'].refs['n'].payload
+    except Exception as e:
+        got = type(e).__name__
+    if got != 'new object':
+        sh.violation('c11:%s:retry-with-the-same-new-object-commits-a-dangling-reference' % kind, {'crafted': True, 'read': got}, case)
     sh.count('shadow_comparisons')
+    sh.count('crafted_retry_scenarios')
     c1.close()
     c2.close()
     db.close()
@@ -198,6 +212,10 @@ def crafted_implicit_new_conflict(sh, d, case):
 def run_shard(params):
     logging.disable(logging.CRITICAL)
     sh = Shard(params)
+    if params.get('shard', 0) < 3:
+        # fixed regression scenario (was a known finding until fix cd1a7ad): one storage kind per shard
+        ccase = {'crafted': 'implicit-new-conflict', 'kind': ('file', 'mapping', 'demo')[params.get('shard', 0)]}
+        guarded(sh, 'c11', ccase, lambda: crafted_implicit_new_conflict(sh, sh.fresh_dir('c11'), ccase))
     for i in case_indices(params):
         if not sh.time_left():
             break
